@@ -735,6 +735,19 @@ def _hoist_test_calls(fn, refs: list[ast.AST], parents) -> bool:
         if isinstance(up, ast.Await):
             node, up = up, parents.get(id(up))
         holder = up
+        if isinstance(holder, ast.AugAssign) and holder.value is node:
+            # `x += helper(args)`  ->  `__inl_ret_k = helper(args)` + `x += __inl_ret_k`
+            blk = _containing_block(holder, parents)
+            if blk is None:
+                continue
+            _COUNTER[0] += 1
+            name = f'__inl_ret_{_COUNTER[0]}'
+            asg = ast.copy_location(ast.Assign(targets=[ast.Name(id=name, ctx=ast.Store())], value=node), holder)
+            holder.value = ast.copy_location(ast.Name(id=name, ctx=ast.Load()), node)
+            i = next(k for k, x in enumerate(blk) if x is holder)
+            blk.insert(i, asg)
+            changed = True
+            continue
         if isinstance(holder, ast.UnaryOp) and isinstance(holder.op, ast.Not):
             holder = parents.get(id(holder))
         if isinstance(holder, ast.If) and (holder.test is node or holder.test is up):
